@@ -954,16 +954,10 @@ impl LineBuffer {
                 }
             }
             Movement::ViFirstPrint => {
-                if self.pos == 0 {
-                    None
-                } else {
-                    self.vi_first_print_pos().map(|pos| {
-                        if pos <= self.pos {
-                            self.buf[pos..self.pos].to_owned()
-                        } else {
-                            self.buf[self.pos..pos].to_owned()
-                        }
-                    })
+                match self.vi_first_print_pos() {
+                    Some(pos) if pos < self.pos => Some(self.buf[pos..self.pos].to_owned()),
+                    Some(pos) if pos > self.pos => Some(self.buf[self.pos..pos].to_owned()),
+                    _ => None,
                 }
             }
             Movement::EndOfLine => {
